@@ -236,3 +236,32 @@ Proof.
   constructor; cbn; try reflexivity; try (left; reflexivity); try discriminate;
     vm_compute; try reflexivity; try (split; [discriminate|reflexivity]).
 Qed.
+
+(* ---- known finding: there is no "no previous header" (Origin) in ValidateHeaderInput.
+   C40_accept asks for x_prev_slot < slot (ok_prev_slot), which no context satisfies at
+   slot 0; and indeed a header for slot 0 - which the builder produces - is rejected in
+   EVERY context, although slot 0 is a legitimate slot for the first block of a chain. *)
+Theorem C40_slot0_refuted :
+  (forall P cfg i, v_slot i = 0 -> valid P cfg i = false /\ In CSlot (fst (validate_header P cfg i))) /\
+  (exists h, build_header TP (ex_state Praos)
+               {| i_slot := 0; i_blockno := 0; i_prev := zeros 32; i_nonce := zeros 32; i_pool := 1; i_total := 2;
+                  i_bhash := zeros 32; i_bsize := 3; i_pmaj := 9; i_pmin := 0 |} = BOk h /\ hb_slot (h_body h) = 0).
+Proof.
+  split.
+  - intros P cfg i E.
+    assert (C : chk_slot i = false) by (unfold chk_slot; rewrite E; apply negb_false_iff; apply N.leb_le; apply N.le_0_l).
+    split.
+    + destruct (valid P cfg i) eqn:V; [|reflexivity]. apply valid_iff in V. destruct V as [V _]. congruence.
+    + rewrite failed_is_filter. apply filter_In. split; [left; reflexivity|]. cbn. rewrite C. reflexivity.
+  - eexists. split; vm_compute; reflexivity.
+Qed.
+
+(* in the term-algebra instance (where all idealised premises hold) the builder produces a header
+   for every well-sized input of either layout: the premise of C40_tamper is satisfiable there *)
+Example C40_ideal_world_inhabited : forall st i,
+  b_mode st <> BadMode ->
+  length (i_prev i) = 32%nat -> length (i_nonce i) = 32%nat -> length (i_bhash i) = 32%nat ->
+  length (b_issuer st) = 32%nat -> length (b_csig st) = 64%nat -> b_hot st = kes_vk IP (b_kes_seed st) ->
+  i_pool i <> 0 -> i_total i <> 0 -> i_slot i <= max_int64 ->
+  exists h, build_header IP st i = BOk h.
+Proof. exact IP_builds. Qed.
